@@ -327,7 +327,7 @@ def gen_m2m(rng, tier):
             ops.append(["new", _pick_form(rng, M2M_PAIR_FORMS + ["none"], p), p])
             ninst += 1
         elif r < 0.13 and ninst < 3:
-            ops.append(["newfrom", i, s])
+            ops.append(["newfrom", i, s, rng.choice(["ctor", "ctor", "deepcopy", "pickle0", "pickle2", "pickle5"])])
             ninst += 1
         elif r < 0.25:
             ops.append(["updfrom", i, s, rng.randrange(ninst), int(rng.random() < 0.5)])
@@ -629,7 +629,16 @@ def run_m2m(case):
                 insts.append(m)
             elif op[0] == "newfrom":
                 x = insts[op[1]].inv if op[2] else insts[op[1]]
-                insts.append(ManyToMany(x))
+                how = op[3] if len(op) > 3 else "ctor"
+                if how == "ctor":
+                    c = ManyToMany(x)
+                elif how == "deepcopy":
+                    c = _copy.deepcopy(x)
+                else:
+                    import pickle
+                    c = pickle.loads(pickle.dumps(x, int(how[6:])))
+                assert type(c) is ManyToMany and c is not x and c.inv is not x.inv
+                insts.append(c)
             elif op[0] == "updfrom":
                 x = insts[op[1]].inv if op[2] else insts[op[1]]
                 y = insts[op[3]].inv if op[4] else insts[op[3]]
